@@ -670,13 +670,14 @@ int main(int argc, char** argv)
 		grids.push_back({13, 13});
 		grids.push_back({24, 12});
 	}
+	else Ns.push_back(1100);	// one table beyond 2^10 intervals in the quick tier too (stride doubling, size-dependent loop bounds)
 	if(mc::asan_mode())
 	{
 		Ns	  = {3, 4, 5, 8, 12, 13, 24};
 		grids = {{3, 3}, {5, 4}};
 	}
 	mc::bound("rule", "every reachable (locator index, correlation flag, prefactor) state of the real object x every letter of the query alphabet; a case is one (state, operation) transition executed on the compiled code and compared with a fresh object; non-trivial = the state differs from the freshly constructed one");
-	mc::bound("tables_1d", "N in {3,4,5,8,12,13,24,40" + std::string(mc::thorough() ? ",100,500,2000" : "") + "} x spacing {uniform, geometric, wild}");
+	mc::bound("tables_1d", "N in {3,4,5,8,12,13,24,40" + std::string(mc::thorough() ? ",100,500,2000" : ",1100 (uniform)") + "} x spacing {uniform, geometric, wild}");
 	mc::bound("prefactor_states", "{1,2,-1,-2} reached by Set_Prefactor(2), Set_Prefactor(1), Multiply(-1)");
 	mc::bound("search", "breadth-first to fixpoint (no depth bound): histories of unbounded length over the alphabet");
 	unsigned long long unit = 0;
@@ -685,6 +686,7 @@ int main(int argc, char** argv)
 		for(const char* sp : {"uniform", "geometric", "wild"})
 		{
 			if(N >= 500 && std::string(sp) == "wild") continue;
+			if(N == 1100 && std::string(sp) != "uniform") continue;
 			Run1D R(make_table(N, sp));
 			R.Q = query_alphabet(R.t.x);
 			// pair sub-alphabet: up to 24 letters spread over Q, always containing both ends, a knot and its neighbours
